@@ -327,7 +327,10 @@ func insertYields(fset *token.FileSet, f *ast.File, tpkg *types.Package, info *t
 	rewrite := func(fn string, list []ast.Stmt) []ast.Stmt {
 		var out []ast.Stmt
 		for _, s := range list {
-			if _, isDecl := s.(*ast.DeclStmt); !isDecl {
+			_, isDecl := s.(*ast.DeclStmt)
+			_, isCase := s.(*ast.CaseClause) // the body of a switch/select is a block whose "statements" are its clauses
+			_, isComm := s.(*ast.CommClause)
+			if !isDecl && !isCase && !isComm {
 				pos := fset.Position(s.Pos())
 				site := fmt.Sprintf("%s:%d %s", filepath.Base(pos.Filename), pos.Line, fn)
 				call, _ := parser.ParseExpr(fmt.Sprintf("verifYield(%q)", site))
